@@ -69,13 +69,13 @@ type GQLSub struct {
 type Op struct {
 	// create | update | updateFilter | delete | deleteIDs | deleteFilter | upsert | save |
 	// dup | txn | multi | pair
-	Kind   string  `json:"kind"`
-	Col    int     `json:"col"`
-	API    bool    `json:"api,omitempty"` // Go collection API instead of GraphQL (where both exist)
+	Kind   string   `json:"kind"`
+	Col    int      `json:"col"`
+	API    bool     `json:"api,omitempty"` // Go collection API instead of GraphQL (where both exist)
 	Docs   []DocVal `json:"docs,omitempty"`
-	Target []int   `json:"target,omitempty"` // document indices, modulo what exists (deleted ones included)
-	Filter *Filter `json:"filter,omitempty"`
-	Set    SetVal  `json:"set,omitempty"`
+	Target []int    `json:"target,omitempty"` // document indices, modulo what exists (deleted ones included)
+	Filter *Filter  `json:"filter,omitempty"`
+	Set    SetVal   `json:"set,omitempty"`
 	// txn: the steps; multi: the mutations of the one request; pair: steps of transaction A
 	Sub []Op `json:"sub,omitempty"`
 	// pair: steps of transaction B
